@@ -131,5 +131,15 @@ Erase(m) ==
     [] m.k = "L" -> [m EXCEPT !.c = <<Erase(m.c[1])>>]
     [] m.k \in {"S", "P"} -> [m EXCEPT !.c = Splice(m.k, [j \in DOMAIN m.c |-> Erase(m.c[j])])]
     [] OTHER -> m
+\* alias arithmetic (C06): every valid alias denotes distinct qubits of the fundamental register, and the elements of
+\* an alias of an alias are elements of its source (composition along the chain)
+AliasSound == Complete =>
+  LET t == RegTab(Prog, Env(Prog, <<>>))
+      sizeOf(f) == Len(t[f].elems)
+  IN \A r \in DOMAIN t : t[r].ok =>
+        /\ \A a, b \in DOMAIN t[r].elems : a # b => t[r].elems[a] # t[r].elems[b]
+        /\ \A a \in DOMAIN t[r].elems : t[r].elems[a] >= 0 /\ t[r].elems[a] < sizeOf(t[r].fund)
+        /\ \A j \in DOMAIN Prog.regs : (Prog.regs[j].v = r /\ Prog.regs[j].k = "alias" /\ Prog.regs[j].src \in DOMAIN t) =>
+              \A a \in DOMAIN t[r].elems : \E b \in DOMAIN t[Prog.regs[j].src].elems : t[Prog.regs[j].src].elems[b] = t[r].elems[a]
 EraseAgrees == Complete => Erase(Meaning(Prog, <<>>)) = MeaningModSub(Prog, <<>>)
 =============================================================================
